@@ -8,9 +8,12 @@ CONSTANTS
   MsgHeights = {0, 12}
   StoredPools = 10
   MaxReqs = 1
+  MaxWaiters = 0
+  Expiry = TRUE
   EnableBlackListing = TRUE
   FilterOnPromote = FALSE
   CheckOnHandout = FALSE
+  CheckOnWake = TRUE
 VIEW view
 
 INVARIANTS TypeOK NotPromotedBeforeConfirmed BlacklistedNeverOffered
